@@ -69,7 +69,7 @@ mod verif_replay_expr_dm {
     /// evaluates `src` on its own thread; Err("timeout") if it does not come back within 5 s (self-deadlock)
     fn eval_with_timeout(src: &'static str) -> Result<Result<String, String>, String> {
         let (tx, rx) = std::sync::mpsc::channel();
-        std::thread::spawn(move || {
+        let _worker = std::thread::Builder::new().name("verif_replay_aliased_operands_terminate".to_string()).spawn(move || {
             use crate::expression_engine::parser::ExpressionParser;
             let gd = create_global_data_arc();
             RFsmExpressionDatamodel::add_internal_functions_to_wrapper(&mut gd.lock().unwrap().actions);
@@ -230,7 +230,7 @@ mod verif_replay_expr_dm {
         let panicked: Arc<Mutex<Vec<String>>> = Arc::new(Mutex::new(Vec::new()));
         let (tx, rx) = std::sync::mpsc::channel();
         let (cur2, pan2) = (current.clone(), panicked.clone());
-        std::thread::spawn(move || {
+        let _worker = std::thread::Builder::new().name("verif_replay_malformed_expressions_never_panic".to_string()).spawn(move || {
             let fresh = || {
                 let gd = create_global_data_arc();
                 RFsmExpressionDatamodel::add_internal_functions_to_wrapper(&mut gd.lock().unwrap().actions);
